@@ -1,6 +1,6 @@
 #!/bin/bash
 # run every registered quick check against /repo, validate MANIFEST and evidence files
-cd /verif
+cd "$(dirname "$(dirname "$(readlink -f "$0")")")"
 for id in $(python3 -c "import json; print(' '.join(c['property_id'] for c in json.load(open('MANIFEST.json'))['checks']))"); do
   s=$(date +%s)
   out=$(./check $id --tier ${1:-quick} 2>&1 | grep -E ": exit |^VIOLATION|^UNDECIDED|^CHECKER" | head -5)
@@ -9,9 +9,9 @@ for id in $(python3 -c "import json; print(' '.join(c['property_id'] for c in js
 done
 python3-vt - <<'PY'
 import json,jsonschema,glob
-jsonschema.validate(json.load(open('/verif/MANIFEST.json')), json.load(open('/root/.vp/MANIFEST.schema.json')))
+jsonschema.validate(json.load(open('MANIFEST.json')), json.load(open('/root/.vp/MANIFEST.schema.json')))
 sch=json.load(open('/root/.vp/EVIDENCE.schema.json'))
-m=json.load(open('/verif/MANIFEST.json'))
+m=json.load(open('MANIFEST.json'))
 for c in m['checks']:
     e=json.load(open(c['evidence_file'])); jsonschema.validate(e, sch)
     assert e['level']==c['level_claimed']['category'], (c['property_id'], e['level'], c['level_claimed']['category'])
